@@ -28,7 +28,14 @@ class DictAdapter(Adapter):
 
     @classmethod
     def map(cls, value, map_function):
-        return {k: adapter_map(v, map_function) for k, v in value.items()}
+        result = {k: adapter_map(v, map_function) for k, v in value.items()}
+        if type(value) is not dict:
+            # OrderedDict, Counter, ...
+            try:
+                return type(value)(result)
+            except Exception:
+                pass
+        return result
 
     @classmethod
     def items(cls, value, node):
